@@ -21,7 +21,7 @@
    A value read is [Ok (Some (Txt s))] = the str s; [Err e] = the call raised. *)
 From Coq Require Import NArith List Lia.
 Import ListNotations.
-Require Import SR.Base.Res SR.Spec.Transparency SR.Gen.RecfmParams SR.Model.HeaderRow SR.Model.Workbook.
+Require Import SR.Base.Res SR.Spec.Transparency SR.Spec.Encode SR.Gen.RecfmParams SR.Model.HeaderRow SR.Model.Workbook.
 Require Import SR.Proofs.WorkbookP.
 
 (* The file suffix alone selects the reader: for every format with a registered suffix the registry
@@ -103,7 +103,7 @@ Print Assumptions C03_fixed_ebcdic.
    are not changed by padding *)
 Theorem C03_repertoire :
   (forall c, (c < 256)%N -> in_repertoire c = true)
-  /\ (forall c, in_repertoire c = true -> Estruct.cp037 (encode_char c) = c)
+  /\ (forall c, in_repertoire c = true -> cp037 (encode_char c) = c)
   /\ (forall widths T, fits_exactly widths T = true -> pad_table widths T = T).
 Proof. split; [exact latin1_in_repertoire|]. split; [exact decode_encode|exact pad_table_exact]. Qed.
 Print Assumptions C03_repertoire.
